@@ -704,6 +704,10 @@ TLAPS = {
             "theorems": ["C16: Spec => [](Atomic /\\ Done /\\ FailPos)  (inductive invariant IndInv; Invariance, Clauses)"],
             "bound": "none (tables of any length, uninterpreted cell semantics)",
             "bridge": "Bulk.tla INSTANTIATES BulkMachine.tla (its Begin / StepRow / WriteAll are the proved machine's actions); TraceBulk.tla validates recorded executions against them"},
+    "C12": {"module": "C12_Repoint.tla", "needs": ["RepointRel.tla"],
+            "theorems": ["PerRecord: CURIE side identical, no URI prefix lost, at most the mapped one gained, a target held by another record leaves the record untouched, an unused target or an own synonym becomes canonical",
+                         "StrictAgain: the result is a strict converter again", "UnknownKeys: rewiring unknown CURIE prefixes changes nothing"],
+            "bridge": "Prop_BridgeRepoint on mc/MC_Derive.tla: on strict inputs and non-ambiguous maps Derive!RemapURI / Derive!Rewire compute exactly RepointRel!UpdR per record"},
     "C05": {"module": "C05_Step.tla",
             "theorems": ["Step: Inv /\\ Next => OneOwner(recs')", "StepIndex: Inv /\\ Next => pm' = PMOf(recs')"],
             "bridge": "Prop_Bridge on mc/MC_Incr.tla: every add step of Conv!AddRecord is a step of StepRel"},
